@@ -32,7 +32,9 @@ fn random_tx(w: &mut World, rng: &mut Rng, avoid_known: bool) -> Option<usize> {
     let k = if rng.chance(4, 5) { 1 } else { 2 };
     let mut ins = vec![];
     for _ in 0..k {
-        let o = if rng.chance(4, 5) { pick(rng, &spendable) } else { pick(rng, &all) };
+        // transactions for the second thread (avoid_known) never spend what a pooled transaction spends: a replacement
+        // that happens and is undone inside one notification could not be told apart from the reorg's own effect
+        let o = if avoid_known || rng.chance(4, 5) { pick(rng, &spendable) } else { pick(rng, &all) };
         if let Some(o) = o {
             if !ins.contains(&o) {
                 ins.push(o);
@@ -57,7 +59,6 @@ fn random_tx(w: &mut World, rng: &mut Rng, avoid_known: bool) -> Option<usize> {
         let lo = n.saturating_sub(3);
         hdeps.push(w.chain[lo + rng.below((n - lo) as u64) as usize]);
     }
-    let _ = avoid_known;
     let n_out = rng.range(1, 3) as usize;
     let fee = rng.range(700, 9_000);
     w.new_tx(&ins, &deps, &hdeps, n_out, fee, rng)
